@@ -46,6 +46,9 @@ Dup(kind, o) ==
   /\ o \in Live /\ Len(heap) < MaxObjs
   /\ heap' = Alloc(heap[o]) /\ obs' = O(kind, o, Len(heap) + 1, "-", 0, "ok")
 
+\* using an object (encoding it, writing it to a stream, printing it, hashing it) is an observer too
+Use(o) == o \in Live /\ UNCHANGED heap /\ obs' = O("use", o, 0, "-", 0, "ok")
+
 \* observers
 Eq(a, b) == a \in Live /\ b \in Live /\ UNCHANGED heap
             /\ obs' = O("eq", a, b, "-", 0, IF heap[a] = heap[b] THEN "equal" ELSE "different")
@@ -56,7 +59,7 @@ Next ==
   \/ \E v \in Value : New(v)
   \/ \E o \in 1..MaxObjs, fld \in Fields, x \in Vals : SetAttr(o, fld, x) \/ Replace(o, fld, x)
   \/ \E o \in 1..MaxObjs, fld \in Fields : DelAttr(o, fld)
-  \/ \E o \in 1..MaxObjs : SetNew(o) \/ Dup("copy", o) \/ Dup("deepcopy", o) \/ Dup("pickle", o)
+  \/ \E o \in 1..MaxObjs : SetNew(o) \/ Dup("copy", o) \/ Dup("deepcopy", o) \/ Dup("pickle", o) \/ Use(o)
   \/ \E a, b \in 1..MaxObjs : Eq(a, b) \/ Hash(a, b)
 Spec == Init /\ [][Next]_vars
 
